@@ -814,6 +814,7 @@ package template
 //@   ensures setexecuted: old(t.nameSpace.escaped) ==> !isnil(err) && isnil(r)
 //@   ensures ok: isnil(err) ==> !isnil(r) && fresh(r) && !isnil(r.nameSpace) && fresh(r.nameSpace) && r.nameSpace != t.nameSpace && !r.nameSpace.escaped && isnil(r.escapeErr) && !held(r.nameSpace.mu)
 //@   ensures unlocked: !held(t.nameSpace.mu)
+//@   ensures sameconfig: isnil(err) ==> r.nameSpace.cspCompatible == old(t.nameSpace.cspCompatible)
 //@   ensures isolated: isnil(err) ==> fresh(r.nameSpace.set) && fresh(r.nameSpace.esc.output) && fresh(r.nameSpace.esc.derived) && fresh(r.nameSpace.esc.called) && fresh(r.nameSpace.esc.actionNodeEdits) && fresh(r.nameSpace.esc.templateNodeEdits) && fresh(r.nameSpace.esc.textNodeEdits) && r.nameSpace.esc.ns == r.nameSpace
 //@   ensures members: isnil(err) ==> forallkey(w, haskeym(r.nameSpace.set, w) ==> fresh(r.nameSpace.set[w]) && fresh(r.nameSpace.set[w].text) && isnil(r.nameSpace.set[w].escapeErr) && r.nameSpace.set[w].nameSpace == r.nameSpace)
 //@   ensures original: onlyfresh()
@@ -826,7 +827,7 @@ package template
 //@     invariant trees: forallkey(w, haskeym(ns.set, w) && ns.set[w] != ret ==> isnil(ns.set[w].Tree) || fresh(ns.set[w].Tree))
 //@     invariant !isnil(ret) && fresh(ret) && ret.nameSpace == ns && fresh(ns) && !isnil(ns) && !isnil(ns.set) && fresh(ns.set) && !isnil(ret.text) && fresh(textClone) && !isnil(textClone)
 //@     invariant onlyfresh()
-//@     invariant !ns.escaped && !held(ns.mu) && held(t.nameSpace.mu)
+//@     invariant !ns.escaped && !held(ns.mu) && held(t.nameSpace.mu) && ns.cspCompatible == t.nameSpace.cspCompatible
 //@     invariant forallkey(w, haskeym(ns.set, w) ==> !isnil(ns.set[w]) && fresh(ns.set[w]) && isnil(ns.set[w].escapeErr) && ns.set[w].nameSpace == ns && !isnil(ns.set[w].text))
 //@     invariant haskeym(ns.set, ttname(ret.text))
 
